@@ -123,12 +123,14 @@ def run_case(ctx, case):
     rng = np.random.default_rng(case['seed'])
     for attempt in range(20):
         sp = G.gen_spec(rng, lengths=[64, 100, 128])
+        if rng.random() < 0.12:
+            sp = G.integer_grid(sp)
         r = R.grids(sp['L'], sp['dr'])[0]
         if any(core_set(sp, a, b, r)[0].any() for (_, _), (a, b) in G.pairs(sp['types'])):
             break
     else:
         raise core.Skip('no hard-core pair generated')
-    sp['via'] = str(rng.choice(G.VIAS))
+    sp['via'] = str(rng.choice(G.VIAS)) if not isinstance(sp['dr'], int) else 'dr'
     sp['kT_via'] = str(rng.choice(['ctor', 'assign']))
     with np.errstate(all='ignore'):
         s = G.build(sp)
